@@ -9,6 +9,8 @@ use white_whale_std::pool_network::swap::assert_max_spread;
 fn d(x: u128) -> Decimal { Decimal::new(Uint128::new(x)) }
 
 pub fn run(args: &Args) {
+    // replay of a recorded pair history (router / pure cases are re-run by the generators with the recorded seed)
+    if let Some(f) = &args.replay { std::process::exit(replay_file("C15", f, &format!("{}/scratch", args.out))); }
     let mut out = Out::new(&args.out);
     out.rule = "pure: assert_max_spread on dense grids around each threshold (s*(ret+spread) +-{0,1}), max_spread in {None,0,1e-18,0.01,0.5,0.5+eps,1,2}, belief prices around offer/ret; \
                 pair histories biased to max_spread / belief_price / slippage_tolerance; router minimum_receive at the unconstrained outcome +-1; \
@@ -50,6 +52,59 @@ pub fn run(args: &Args) {
         if k < 2 { out.sample(replay.clone()); }
         let o = |x: &Option<u128>| match x { Some(v) => format!("(Some {})", v), None => "None".into() };
         out.case("maxspread", &format!("({}, {}, {}, {}, {})", o(&belief), o(&ms), offer, ret, spread), &obs(&r, |_| vec![]), replay);
+    }
+    // pure liquidity-tolerance stream through the hooks: constant-product pair, stableswap pair, three-asset pool
+    {
+        use white_whale_std::pool_network::asset::{Asset, AssetInfo, PairType};
+        let tols: [Option<u128>; 8] = [None, Some(0), Some(1), Some(DEC / 100), Some(DEC / 2), Some(DEC), Some(DEC + 1), Some(2 * DEC)];
+        let nat = |d: &str, a: u128| Asset { info: AssetInfo::NativeToken { denom: d.to_string() }, amount: Uint128::new(a) };
+        for k in 0..(args.n * 6) {
+            let kind = k % 3;
+            let tol = *rng.pick(&tols);
+            let n = if kind == 2 { 3 } else { 2 };
+            let supply = if rng.chance(1, 25) { 0 } else { magnitude(&mut rng, 110) };
+            let rs: Vec<u128> = (0..n).map(|_| if rng.chance(1, 30) { 0 } else { magnitude(&mut rng, 110) }).collect();
+            // deposits near the pool proportions, minted amount near pro rata, then perturbed around the threshold
+            let frac = 1 + rng.below(1000) as u128;
+            let mut ds: Vec<u128> = rs.iter().map(|r| (r / frac).max(1)).collect();
+            if rng.chance(1, 2) { let i = rng.below(n as u64) as usize; ds[i] = ds[i].saturating_add(ds[i] / (1 + rng.below(200) as u128)); }
+            if rng.chance(1, 20) { let i = rng.below(n as u64) as usize; ds[i] = 0; }
+            let mut amount = (supply / frac).max(if rng.chance(1, 20) { 0 } else { 1 });
+            match rng.below(4) { 0 => amount = amount.saturating_add(amount / 100 + 1), 1 => amount = amount.saturating_sub(amount / 100), 2 => amount = amount.saturating_add(1), _ => {} }
+            let r = match kind {
+                2 => run_catch(|| stableswap_3pool::verif_hooks::assert_slippage_tolerance(&tol.map(d), &[Uint128::new(ds[0]), Uint128::new(ds[1]), Uint128::new(ds[2])],
+                        &[nat("a", rs[0]), nat("b", rs[1]), nat("c", rs[2])], Uint128::new(amount), Uint128::new(supply)), |e| classify_text(&e.to_string())),
+                _ => run_catch(|| terraswap_pair::verif_hooks::assert_slippage_tolerance(&tol.map(d), &[Uint128::new(ds[0]), Uint128::new(ds[1])],
+                        &[nat("a", rs[0]), nat("b", rs[1])], if kind == 1 { PairType::StableSwap { amp: 100 } } else { PairType::ConstantProduct }, Uint128::new(amount), Uint128::new(supply)),
+                        |e| classify_text(&e.to_string())),
+            };
+            let pool_name = ["constant-product pair", "stableswap pair", "3pool"][kind as usize];
+            let replay = json!({"kind": "assert_slippage_tolerance", "pool": pool_name, "tolerance": tol.map(|t| t.to_string()),
+                                "deposits": ds.iter().map(|x| x.to_string()).collect::<Vec<_>>(), "reserves": rs.iter().map(|x| x.to_string()).collect::<Vec<_>>(),
+                                "minted": amount.to_string(), "supply": supply.to_string()});
+            // monitor for the stableswap arms: accepted <=> floor(floor(R*1e18/S)*(1e18-t)/1e18) <= floor(D*1e18/minted)
+            out.monitor_evals += 1;
+            if kind != 0 {
+                if let Some(t) = tol {
+                    if t <= DEC && supply > 0 && amount > 0 {
+                        let u = |x: u128| cosmwasm_std::Uint512::from(Uint128::new(x));
+                        let rt = rs.iter().fold(cosmwasm_std::Uint512::zero(), |a, x| a + u(*x));
+                        let dt = ds.iter().fold(cosmwasm_std::Uint512::zero(), |a, x| a + u(*x));
+                        let lhs = rt * u(DEC) / u(supply) * u(DEC - t) / u(DEC);
+                        let rhs = dt * u(DEC) / u(amount);
+                        match &r {
+                            Outcome::Ok(_) => if lhs > rhs { out.monitor_fail("C15", "stableswap deposit accepted outside its slippage tolerance", replay.clone()); },
+                            Outcome::Err(_) => if lhs <= rhs { out.monitor_fail("C15", "stableswap deposit within its slippage tolerance was rejected", replay.clone()); },
+                            Outcome::Panic(_) => out.monitor_fail("C15", "assert_slippage_tolerance aborted", replay.clone()),
+                        }
+                    }
+                    if t > DEC && matches!(r, Outcome::Ok(_)) { out.monitor_fail("C15", "tolerance above 1 accepted", replay.clone()); }
+                }
+            }
+            out.count(&format!("tol{}:{}", kind, match &r { Outcome::Ok(_) => "ok", Outcome::Err(c) if *c == E_SLIPPAGE => "slippage", Outcome::Err(_) => "err", Outcome::Panic(_) => "panic" }));
+            let o = |x: &Option<u128>| match x { Some(v) => format!("(Some {})", v), None => "None".into() };
+            out.case("tol", &format!("({}, {}, {}, {}, {}, {})", kind, o(&tol), zlist(&ds), zlist(&rs), amount, supply), &obs(&r, |_| vec![]), replay);
+        }
     }
     let bias = Bias { tiny_swaps: false, spreads: true, toggles: false };
     for c in 0..args.n {
